@@ -10,7 +10,15 @@ CONFIG = {
                   "C12_bounded_work_* — every stored downstream fragment size is in 1..65535 in every reachable state, the Write chunking loop then "
                   "terminates within |b| iterations, a fragment-size test answers at most 65535 filler bytes; C12_stray_preserves_sessions — messages "
                   "selecting no / a reserved command or with an undecodable header change nothing, an undecodable body at most refreshes the sender's own "
-                  "last-contact time (with C13: no message changes a session of another address); C12_site_coverage — the regenerated inventory of "
+                  "last-contact time; C12_stranger_commands_inert - for every state and codec, whatever an address that owns no live session sends "
+                  "(any command letter, any identifier of a live / retired / unknown session, close flag, options, payload, acknowledgements) the whole "
+                  "server state is unchanged, or the message was a version request and the state is newUser's; C12_stranger_message_deletable - such "
+                  "a message can be deleted from any history without changing the state later messages meet; C12_foreign_command_preserves_established - "
+                  "for every sender and every session of another address: object byte-identical and live in its slot, and if the message carries its "
+                  "identifier nothing at all changed and the answer is BADIP/BADCODEC/dropped (reusing C13_foreign_message_preserves, C13_spoof_rejected); "
+                  "C12_handlers_refuse_before_acting - regenerated fact: each session-bound handler tests the validation error before it looks at the "
+                  "request; C12_witness_close_before_refusal - kernel-checked: with the close flag handled first a stranger retires the victim's session; "
+                  "C12_site_coverage — the regenerated inventory of "
                   "index/slice/assertion/func-field-call sites of the handler, decoders and record wrapping is contained in the list the models account for. "
                   "Models tied to the real onMessage and DecodeDnsResponseWithParams by differential runs under recover.",
     "level_note": "Partial: 'bounded work' is proved as bounds on the client-controlled quantities (fragment sizes, loop iteration counts of the model, "
@@ -41,7 +49,7 @@ CONFIG = {
             "non-trivial = reached a decoded request / response. Monitor: no panic, allocation <= 24 MiB, other sessions untouched.",
     "trusted_base": COMMON_TB + ["models SA.Model.DnsServer / SA.Model.DnsServerClient / SA.Model.GoSlice hand-written; tied by per-op comparison of outcome class and session snapshot",
                                  "codecs are a parameter of the models (op line carries the real Decode results)",
-                                 "go/extract/x_c12.go: command table, codec codes, limits, panic-site inventory"],
+                                 "go/extract/x_c12.go: command table, codec codes, limits, panic-site inventory, shape of the handlers' first test after validateAndGetUser"],
     "assumptions": ["messages carry exactly one question (miekg/dns delivers what was on the wire; 0 or several questions are outside the property's quantifier)",
                     "enc.Encoder.Decode/Encode of every codec return normally (Codec.Total: hypothesis of the theorems; exhaustively checked on inputs of length <= 2 and on every generated input)"],
 }
